@@ -1,5 +1,5 @@
 import OvniModel.Props.C04
-import OvniModel.Lemmas.EmuCoreRec
+import OvniModel.Lemmas.EmuCoreTotal
 
 /-!
 # C05 — CPU occupancy: one running thread per physical CPU; CPU rows mirror threads
@@ -20,6 +20,10 @@ of `stepEv`) accepts the history.
   running threads bound to it and the TID / PID of that thread when it is unique.
 * `cpu_records`: whenever one of these channels is modified in an accepted step, the step emits
   the record of type 3 / 2 / 1 carrying that value on the CPU's row of cpu.prv.
+* `records_total_affinity`: with `NoZeroIds` (C04: non-zero TIDs / PIDs, no forbidden 0 on a model
+  channel) the records of every accepted thread **or affinity** event can be emitted;
+  `stepRun_iff_emuRun`: hence the fold of the full `stepEv` (handlers, record emission, flush) reaches
+  exactly the states `emuRun` reaches, so every theorem above holds for the full emulation step.
 * `remote_same_cpu_rejected`: the model (like the implementation) rejects a remote
   affinity change whose target is the thread's current CPU; the property does not speak
   about it, so `affinity_remote_accept_iff` carries the hypothesis "target ≠ current".
@@ -291,6 +295,88 @@ theorem cpu_records {e e1 : Emu} (h : WF e) (hen : e.enabled.contains 79 = true)
     exact ⟨v, hv, hs1 _ (List.mem_singleton.mpr rfl)⟩
 end
 
+/-! ## The full step: record emission never fails on accepted thread / affinity events -/
+
+section
+variable (th mh : Emu → Nat → Nat → Nat → List Nat → Except Err Emu)
+
+/-- **Record emission is total** for OH{x,c,p,w,r,e}, OAs and OAr: in a well-formed state satisfying
+    `NoZeroIds`, whenever the handlers accept the event, `records` succeeds (thread rows: the new CPU
+    is `gindex + 1 ≥ 1`; CPU rows: nrun has PRV_ZERO, pid / tid are those of the unique running thread
+    — non-zero — or nothing; the model views move with the thread and show untouched model-channel
+    values or CPU-mux defaults), and `NoZeroIds` holds again after the step. -/
+theorem records_total_affinity {e e1 : Emu} (h : WF e) (hz : NoZeroIds e) (hen : e.enabled.contains 79 = true)
+    {ev : OEv} (hk : IsThreadEv ev ∨ IsAffinityEv ev)
+    (hm : modelEvent e ev.1 79 ev.2.1 ev.2.2.1 ev.2.2.2 th mh = .ok e1) :
+    (∃ rs, records e e1 = .ok rs) ∧ NoZeroIds e1.flushAll :=
+  records_total_step th mh h hz hen hk hm
+
+/-- the fold of the full `stepEv` over a history of thread and affinity events: final state and
+    the records of every step -/
+def stepRunO (e : Emu) : List OEv → Except Err (Emu × List (List PrvRec))
+  | [] => .ok (e, [])
+  | ev :: rest =>
+    match stepEv e ev.1 79 ev.2.1 ev.2.2.1 ev.2.2.2 th mh with
+    | .error err => .error err
+    | .ok (e', rs) =>
+      match stepRunO e' rest with
+      | .error err => .error err
+      | .ok (e'', rss) => .ok (e'', rs :: rss)
+
+/-- **The full step reaches exactly the states of `emuRun`.**  From a well-formed state satisfying
+    `NoZeroIds`, a history of thread and affinity events is accepted by the fold of the full `stepEv`
+    (handlers, Paraver record emission, flush) with final state `e` **iff** `emuRun` accepts it with
+    final state `e`: the reachable states of `cpu_membership_inv`, `no_phys_oversub` and `cpu_view`
+    are those of the complete emulation step. -/
+theorem stepRun_iff_emuRun : ∀ (hist : List OEv) (e0 : Emu), WF e0 → NoZeroIds e0 →
+    e0.enabled.contains 79 = true → Hist hist → ∀ e,
+      (∃ rss, stepRunO th mh e0 hist = .ok (e, rss)) ↔ emuRun th mh e0 hist = .ok e
+  | [], e0, _, _, _, _, e => by
+    unfold stepRunO emuRun
+    constructor
+    · rintro ⟨rss, h⟩
+      injection h with h
+      have : e0 = e := congrArg Prod.fst h
+      rw [this]
+    · intro h
+      injection h with h
+      exact ⟨[], by rw [h]⟩
+  | ev :: rest, e0, h0, hz, hen, hh, e => by
+    have hk := hh ev List.mem_cons_self
+    have hh' : Hist rest := fun ev' h' => hh ev' (List.mem_cons_of_mem _ h')
+    unfold stepRunO emuRun
+    constructor
+    · rintro ⟨rss, h⟩
+      cases hs : stepEv e0 ev.1 79 ev.2.1 ev.2.2.1 ev.2.2.2 th mh with
+      | error err => simp only [hs] at h; cases h
+      | ok p =>
+        obtain ⟨e', rs⟩ := p
+        simp only [hs] at h
+        have hes := stepEv_emuStep th mh hs
+        rw [hes]
+        simp only
+        obtain ⟨tj, x, hso⟩ := emuStep_sound th mh h0 hen hk hes
+        cases hr : stepRunO th mh e' rest with
+        | error err => simp only [hr] at h; cases h
+        | ok q =>
+          obtain ⟨e3, rss'⟩ := q
+          simp only [hr] at h
+          have : e3 = e := by injection h with h; exact congrArg Prod.fst h
+          subst this
+          exact (stepRun_iff_emuRun rest e' hso.wf (hz.of_static hso.static)
+            (by rw [hso.static.enabled]; exact hen) hh' e3).mp ⟨rss', hr⟩
+    · intro h
+      cases hes : emuStep th mh e0 ev with
+      | error err => simp only [hes] at h; cases h
+      | ok e' =>
+        simp only [hes] at h
+        obtain ⟨rs, hs⟩ := (stepEv_iff_emuStep th mh h0 hz hen hk e').mpr hes
+        obtain ⟨tj, x, hso⟩ := emuStep_sound th mh h0 hen hk hes
+        obtain ⟨rss, hr⟩ := (stepRun_iff_emuRun rest e' hso.wf (hz.of_static hso.static)
+          (by rw [hso.static.enabled]; exact hen) hh' e).mpr h
+        exact ⟨rs :: rss, by simp only [hs, hr]⟩
+end
+
 
 /-! ## Witnesses -/
 
@@ -335,6 +421,12 @@ example :
     some ([(.running, some 1), (.running, some 0)],
       [([1], .int 1, .int 11, .int 100), ([0], .int 1, .int 10, .int 100), ([], .int 0, .null, .null)]) := by
   decide
+
+/-- the full step accepts the affinity history and emits 6, 6, 7 and 7 records (a migration writes
+    the new CPU on the thread's row, clears the old CPU's row and fills the new CPU's) -/
+example : NoZeroIds demo := by decide
+example : ((stepRunO noHook noHook demo demoAff).toOption.map fun r => r.2.map List.length) =
+    some [6, 6, 7, 7] := by decide
 
 /-- a remote migration to the thread's own CPU is rejected (documented behaviour of the code) -/
 example : (match emuRun noHook noHook demo
